@@ -71,6 +71,10 @@ func buildCases(tier string) *caseList {
 			allCases = append(allCases, Input{ctx, "dyn", dynCases[i].ID})
 			nontrivialCount++
 		}
+		for i := range instTargets {
+			allCases = append(allCases, Input{ctx, "inst", instTargets[i].ID})
+			nontrivialCount++
+		}
 	}
 	for _, ctx := range behav {
 		for i := range es5table.Rows {
@@ -359,6 +363,8 @@ func checkOne(c *run.Ctx, in Input, fresh bool) {
 		checkOwner(c, in, fresh)
 	case "forin":
 		checkForin(c, in, fresh)
+	case "inst":
+		checkInst(c, in, fresh)
 	case "dyn":
 		checkDyn(c, in)
 	case "dump":
@@ -502,6 +508,12 @@ func checkOwner(c *run.Ctx, in Input, fresh bool) {
 		have[n] = true
 		if !table[n] && !(n == "length" || n == "prototype") {
 			c.Feature("extra:" + in.Item + "." + n)
+			if !allowedExtras[in.Item+"."+n] {
+				// an own property ES5.1 does not give this object changes what scripts see (it shadows an
+				// inherited method, shows up in getOwnPropertyNames): only the additions listed in
+				// allowedExtras (later editions, Annex B, host objects) are accepted
+				c.Fail("mismatch", site+"#extra", in, sstr(""), sstr(n), "own property not in ES5.1 section 15 and not a listed extension")
+			}
 		}
 	}
 	en, _ := o.get("enumOwn")
@@ -526,6 +538,124 @@ func checkOwner(c *run.Ctx, in Input, fresh bool) {
 	}
 	compare(c, in, site, o, []expect{{"ext", bstr(true)}, {"descFail", sstr("")}})
 	c.Eval(4)
+}
+
+// allowedExtras: own properties of built-in objects beyond ES5.1 section 15 that otto provides on
+// purpose (ES2015+ functions, Annex B / legacy RegExp statics, host objects).
+var allowedExtras = func() map[string]bool {
+	m := map[string]bool{}
+	for _, n := range []string{"acosh", "asinh", "atanh", "cbrt", "cosh", "expm1", "log10", "log1p", "log2", "sinh", "tanh", "trunc"} {
+		m["Math."+n] = true
+	}
+	for _, n := range []string{"$1", "$2", "$3", "$4", "$5", "$6", "$7", "$8", "$9", "$_", "input"} {
+		m["RegExp."+n] = true
+	}
+	for _, n := range []string{"startsWith", "trimEnd", "trimLeft", "trimRight", "trimStart"} {
+		m["String.prototype."+n] = true
+	}
+	for _, n := range []string{"Number.isNaN", "Object.assign", "Object.values", "RegExp.prototype.compile", "global._", "global.console"} {
+		m[n] = true
+	}
+	return m
+}()
+
+// instTarget is an object the library creates: ES5.1 "Properties of ... Instances" (15.x.5) and the
+// clauses of the constructors say exactly which own properties it has.
+type instTarget struct {
+	ID, Expr string
+	Want     string            // sorted own property names
+	Optional []string          // tolerated additions (documented extensions)
+	Attrs    map[string]string // name -> "w e c" (t/f), only where ES5.1 fixes the attributes
+	Class    string
+	Proto    string // label of the prototype object
+}
+
+var regexpAttrs = map[string]string{"source": "f f f", "global": "f f f", "ignoreCase": "f f f", "multiline": "f f f", "lastIndex": "t f f"}
+
+var instTargets = []instTarget{
+	{ID: "object", Expr: `new Object()`, Want: "", Class: "Object", Proto: "Object.prototype"},
+	{ID: "object-literal", Expr: `({a:1})`, Want: "a", Attrs: map[string]string{"a": "t t t"}, Class: "Object", Proto: "Object.prototype"},
+	{ID: "array", Expr: `new Array(3)`, Want: "length", Attrs: map[string]string{"length": "t f f"}, Class: "Array", Proto: "Array.prototype"},
+	{ID: "array-literal", Expr: `[7,8]`, Want: "0,1,length", Attrs: map[string]string{"0": "t t t", "length": "t f f"}, Class: "Array", Proto: "Array.prototype"},
+	{ID: "string", Expr: `new String("ab")`, Want: "0,1,length", Attrs: map[string]string{"length": "f f f", "0": "f t f"}, Class: "String", Proto: "String.prototype"},
+	{ID: "boolean", Expr: `new Boolean(true)`, Want: "", Class: "Boolean", Proto: "Boolean.prototype"},
+	{ID: "number", Expr: `new Number(1)`, Want: "", Class: "Number", Proto: "Number.prototype"},
+	{ID: "date", Expr: `new Date(0)`, Want: "", Class: "Date", Proto: "Date.prototype"},
+	{ID: "regexp-literal", Expr: `/a/g`, Want: "global,ignoreCase,lastIndex,multiline,source", Attrs: regexpAttrs, Class: "RegExp", Proto: "RegExp.prototype"},
+	{ID: "regexp-ctor", Expr: `new RegExp("a","i")`, Want: "global,ignoreCase,lastIndex,multiline,source", Attrs: regexpAttrs, Class: "RegExp", Proto: "RegExp.prototype"},
+	{ID: "error-new", Expr: `new Error("m")`, Want: "message", Optional: []string{"stack"}, Class: "Error", Proto: "Error.prototype"},
+	{ID: "error-call", Expr: `Error("m")`, Want: "message", Optional: []string{"stack"}, Class: "Error", Proto: "Error.prototype"},
+	{ID: "error-no-message", Expr: `new Error()`, Want: "", Optional: []string{"stack"}, Class: "Error", Proto: "Error.prototype"},
+	{ID: "typeerror-new", Expr: `new TypeError("m")`, Want: "message", Optional: []string{"stack"}, Class: "Error", Proto: "TypeError.prototype"},
+	{ID: "rangeerror-call", Expr: `RangeError("m")`, Want: "message", Optional: []string{"stack"}, Class: "Error", Proto: "RangeError.prototype"},
+	{ID: "syntaxerror-no-message", Expr: `new SyntaxError()`, Want: "", Optional: []string{"stack"}, Class: "Error", Proto: "SyntaxError.prototype"},
+	{ID: "thrown-typeerror", Expr: `(function(){try{null.x}catch(x){return x}})()`, Want: "message", Optional: []string{"stack"}, Class: "Error", Proto: "TypeError.prototype"},
+	{ID: "thrown-referenceerror", Expr: `(function(){try{undefinedName}catch(x){return x}})()`, Want: "message", Optional: []string{"stack"}, Class: "Error", Proto: "ReferenceError.prototype"},
+	{ID: "arguments", Expr: `(function(){return arguments})(1,2)`, Want: "0,1,callee,length", Attrs: map[string]string{"0": "t t t", "length": "t f t", "callee": "t f t"}, Class: "Arguments", Proto: "Object.prototype"},
+	{ID: "json-parse", Expr: `JSON.parse('{"a":[1]}')`, Want: "a", Attrs: map[string]string{"a": "t t t"}, Class: "Object", Proto: "Object.prototype"},
+	{ID: "object-create-null", Expr: `Object.create(null)`, Want: "", Class: "Object", Proto: "null"},
+	{ID: "split-result", Expr: `"a,b".split(",")`, Want: "0,1,length", Attrs: map[string]string{"0": "t t t", "length": "t f f"}, Class: "Array", Proto: "Array.prototype"},
+	{ID: "exec-result", Expr: `/a/.exec("xa")`, Want: "0,index,input,length", Attrs: map[string]string{"0": "t t t", "index": "t t t", "input": "t t t", "length": "t f f"}, Class: "Array", Proto: "Array.prototype"},
+	{ID: "descriptor", Expr: `Object.getOwnPropertyDescriptor({a:1},"a")`, Want: "configurable,enumerable,value,writable", Attrs: map[string]string{"value": "t t t", "writable": "t t t"}, Class: "Object", Proto: "Object.prototype"},
+	// B.2.6: "The Function object that is the initial value of Date.prototype.toGMTString is the same
+	// Function object that is the initial value of Date.prototype.toUTCString" (the comparison is
+	// turned into an object so that the same probe reports it)
+	{ID: "same-function:toGMTString=toUTCString", Expr: `(Date.prototype.toGMTString===Date.prototype.toUTCString ? {identical:1} : {distinct:1})`, Want: "identical", Class: "Object", Proto: "Object.prototype"},
+	{ID: "keys-result", Expr: `Object.keys({a:1})`, Want: "0,length", Class: "Array", Proto: "Array.prototype"},
+}
+
+func instByID(id string) *instTarget {
+	for i := range instTargets {
+		if instTargets[i].ID == id {
+			return &instTargets[i]
+		}
+	}
+	return nil
+}
+
+func instProbe(t *instTarget) string {
+	return "(function(G){" + helpers + "var O=(" + t.Expr + `);
+var n=GOPN(O); n.sort(); e("ownNames",J(n)); e("class",CL(O)); e("proto",LBL(GPO(O))); e("ext",IEXT(O));
+for(var i=0;i<n.length;i++){var d=GOPD(O,n[i]); if(d&&("value" in d)) e("attr:"+n[i],(d.writable?"t":"f")+" "+(d.enumerable?"t":"f")+" "+(d.configurable?"t":"f")); else e("attr:"+n[i],"accessor")}
+return R})(this)`
+}
+
+func checkInst(c *run.Ctx, in Input, fresh bool) {
+	t := instByID(in.Item)
+	if t == nil {
+		c.Inconclusive("unknown instance target " + in.Item)
+		return
+	}
+	vm := sharedVM(in.Ctx, fresh)
+	site := "inst:" + t.ID
+	o, ok := probe(c, vm, in, site, instProbe(t))
+	if !ok {
+		return
+	}
+	names, _ := o.get("ownNames")
+	opt := map[string]bool{}
+	for _, n := range t.Optional {
+		opt[n] = true
+	}
+	var core []string
+	for _, n := range splitNames(names) {
+		if opt[n] {
+			c.Feature("instance-extension:" + t.ID + "." + n)
+			continue
+		}
+		core = append(core, n)
+	}
+	if got := strings.Join(core, ","); got != t.Want {
+		c.Fail("mismatch", site+"#ownNames", in, sstr(t.Want), sstr(got), o.String())
+	}
+	exp := []expect{{"class", sstr("[object " + t.Class + "]")}, {"proto", sstr(t.Proto)}, {"ext", bstr(true)}}
+	for n, a := range t.Attrs {
+		exp = append(exp, expect{"attr:" + n, sstr(a)})
+	}
+	sort.Slice(exp, func(i, j int) bool { return exp[i].field < exp[j].field })
+	compare(c, in, site, o, exp)
+	c.Eval(2 + len(exp))
+	c.Nontrivial(in.Ctx + "|inst|" + t.ID)
 }
 
 func checkForin(c *run.Ctx, in Input, fresh bool) {
